@@ -26,6 +26,9 @@ class _HeterogenousEnsembleForecaster(_SktimeForecaster, _HeterogenousMetaEstima
         self.n_jobs = n_jobs
         super(_HeterogenousEnsembleForecaster, self).__init__()
 
+    def _get_fitted_component_forecasters(self):
+        return list(self.forecasters_ or [])
+
     def _check_forecasters(self):
         if (
             self.forecasters is None
